@@ -252,7 +252,9 @@ func (listForSender *txListForSender) selectBatchTo(isFirstBatch bool, destinati
 		value := element.Value.(*WrappedTransaction)
 		txNonce := value.Tx.GetNonce()
 
-		if previousNonce > 0 && txNonce > previousNonce+1 {
+		// "previousNonce" is meaningful only if a transaction has already been copied in the current selection (nonce 0 is a valid nonce)
+		isFirstTxOfSelection := isFirstBatch && copied == 0
+		if !isFirstTxOfSelection && txNonce > previousNonce+1 {
 			listForSender.copyDetectedGap = true
 			journal.hasMiddleGap = true
 			break
